@@ -10,6 +10,7 @@ that maintenance edits of that kind cannot change a verdict:
   N3  negations are pushed inwards: `not (a or b)` -> `not a and not b`, `not (a and b)` -> `not a or not b`, `not not a` -> `a`,
       `not a == b` -> `a != b`, `not a is None` -> `a is not None`, `not a in b` -> `a not in b` (not applied to `<`/`<=`: NaN, None);
   N4  a statement whose value is a conditional expression becomes an if-statement:  `x = a if c else b`, `x += ...`, `return ...`;
+  N11 conditions with a constant test are folded (`a if True else b` -> `a`, `if False: ..` removed) - applied after N6;
   N10 `for i, X in enumerate(IT)` with `i` never read -> `for X in IT`;
   N9  `x = []` + `for T in IT: [if C:] x.append(E)`  ->  `x = [E for T in IT if C]` (same for set()/add);
   N8  `a, b = x, y` becomes `a = x; b = y` when no target occurs in a later value (applied after N6);
@@ -179,6 +180,54 @@ def loops_to_comprehensions(tree):
     for node in ast.walk(tree):
         if isinstance(node, (ast.FunctionDef, ast.AsyncFunctionDef)):
             node.body = rec(node.body)
+    ast.fix_missing_locations(tree)
+    return n[0]
+
+
+def fold_constant_conditions(tree):
+    """N11: `a if True else b` -> `a`;  `if True: A else: B` -> A  (constant tests, typically left by inlining a helper called with a literal flag)"""
+    n = [0]
+
+    class E(ast.NodeTransformer):
+        def visit_IfExp(self, node):
+            self.generic_visit(node)
+            if isinstance(node.test, ast.Constant):
+                n[0] += 1
+                return node.body if node.test.value else node.orelse
+            return node
+
+        def visit_UnaryOp(self, node):
+            self.generic_visit(node)
+            if isinstance(node.op, ast.Not) and isinstance(node.operand, ast.Constant) and isinstance(node.operand.value, bool):
+                return ast.copy_location(ast.Constant(value=not node.operand.value), node)
+            return node
+    E().visit(tree)
+
+    def rec(stmts):
+        out = []
+        for s in stmts:
+            for fld in ('body', 'orelse', 'finalbody'):
+                sub = getattr(s, fld, None)
+                if isinstance(sub, list) and sub and isinstance(sub[0], ast.stmt):
+                    setattr(s, fld, rec(sub))
+            if isinstance(s, ast.Try):
+                for h in s.handlers:
+                    h.body = rec(h.body)
+            if isinstance(s, ast.If) and isinstance(s.test, ast.Constant):
+                n[0] += 1
+                out.extend(s.body if s.test.value else s.orelse)
+                continue
+            out.append(s)
+        return out
+    for node in ast.walk(tree):
+        if isinstance(node, (ast.FunctionDef, ast.AsyncFunctionDef)):
+            node.body = rec(node.body) or [ast.Pass()]
+            # blocks emptied by folding
+            for x in ast.walk(node):
+                for fld in ('body',):
+                    sub = getattr(x, fld, None)
+                    if isinstance(sub, list) and not sub and isinstance(x, (ast.If, ast.For, ast.While, ast.With, ast.Try, ast.ExceptHandler)):
+                        setattr(x, fld, [ast.Pass()])
     ast.fix_missing_locations(tree)
     return n[0]
 
